@@ -290,6 +290,22 @@ Proof.
   unfold is_unknown. destruct (nt_pb x); intuition congruence.
 Qed.
 
+(* a notification concerns only the connection whose remote address it names: whatever packet
+   [p] caused it, a monitor for connection [p'] on the notified socket fires only if [p'] has the
+   same four addresses as [p] *)
+Theorem monitor_only_own_connection : forall fixed w rt mh hops p f nd s x p',
+  wf_world w = true ->
+  utf8_valid (p_fn p) = true -> utf8_valid (p_fs p) = true ->
+  utf8_valid (p_tn p) = true -> utf8_valid (p_ts p) = true ->
+  In (nd, s, x) (o_recv (send_gen fixed w rt mh hops p f)) ->
+  monitor_match p' (nd, s, x) = true ->
+  p_fn p' = p_fn p /\ p_fs p' = p_fs p /\ p_tn p' = p_tn p /\ p_ts p' = p_ts p.
+Proof.
+  intros fixed w rt mh hops p f nd s x p' Hw U1 U2 U3 U4 Hin Hm.
+  destruct (notice_to_sender_only fixed w rt mh hops p f nd s x Hw U1 U2 U3 U4 Hin) as (A & B & _ & _ & C & _ & D).
+  apply monitor_match_spec in Hm as (E1 & E2 & _ & E3 & E4). repeat split; congruence.
+Qed.
+
 Theorem dial_cancelled_by_notice : forall w rt mh p f,
   dial w rt mh p f = DCancelled <->
   o_sync (send w rt mh mh p f) = SNone /\
